@@ -110,6 +110,20 @@ def build_material(mdesc):
     return Material(mdesc["name"], **props)
 
 
+def row_labels(spec, n):
+    """Row labels a table keeps after sorting / filtering / concatenating without reset_index; spec = [kind, k] or None."""
+    if not spec:
+        return None
+    kind, k = spec
+    if kind == "shift":
+        return [i + 1 + k % 9 for i in range(n)]
+    if kind == "perm":
+        return np.random.default_rng(k).permutation(n).tolist()
+    if kind == "gaps":
+        return [2 * i + (k % 3) + (i // 2) for i in range(n)]
+    return [f"r{(7 * i + k) % 101}_{i}" for i in range(n)]
+
+
 def build_point(desc, material_as="object"):
     """desc: {"units":{...}, "adsorbate": name, "T": temperature in its unit, "material": {...},
               "pressure": [...], "loading": [...], "branch": None|'guess'|'ads'|'des'|[0/1...],
@@ -126,13 +140,13 @@ def build_point(desc, material_as="object"):
     kwargs.update(copy.deepcopy(desc.get("meta") or {}))
     extra = desc.get("extra") or {}
     branch = desc.get("branch", "guess")
-    if extra or desc.get("as_frame"):
+    if extra or desc.get("as_frame") or desc.get("labels"):
         data = {"pressure": list(desc["pressure"]), "loading": list(desc["loading"])}
         for k, v in extra.items():
             data[k] = list(v)
         if isinstance(branch, list):
             data["branch"] = list(branch)
-        df = pd.DataFrame(data)
+        df = pd.DataFrame(data, index=row_labels(desc.get("labels"), len(data["pressure"])))
         if isinstance(branch, list):
             return pygaps.PointIsotherm(isotherm_data=df, pressure_key="pressure", loading_key="loading", **kwargs)
         return pygaps.PointIsotherm(isotherm_data=df, pressure_key="pressure", loading_key="loading",
